@@ -20,6 +20,7 @@ func c02(c *Ctx) {
 	r.Decides("the remainder sort ends in a comparison on the quota name (total order: independent of map iteration order); every +1 of the residual distribution is paired with a -1 of the residual under residual > 0")
 	r.Decides("in the first pass a sibling's runtime is set to its request or to its effective minimum max(min, guarantee), never to the raw min; in the iteration a sibling is capped at its request exactly when it reached it and the surplus is recycled; each delta is applied to the sibling it was computed for")
 	r.Decides("the top-down refresh hands each level's own runtime down as the total for the next level (also to the min-scaling), not a loop-invariant total")
+	r.Decides("every change of max/min/weight/request/guarantee reaches the per-resource tree node on every iteration (update or insert) and bumps the version; the per-parent sums of the min scaling are keyed by the parent name and the per-quota records by the quota name")
 	r.Declines("the arithmetic claims themselves: min guarantee, request cap, conservation, proportionality for concrete numbers (would need a relational numeric argument)")
 
 	fns := map[string]*ssa.Function{}
